@@ -44,6 +44,11 @@ COMMON_TRUSTED = [
     "harness/gen_dump.c + gcc: coq/Gen.v is the graph of the compiled tables/constants of the current sources",
     "tools/cleaf.py + clang front end (typed AST): coq/GenLeaf.v is the translation of 30 leaf functions (bit-field extractors, weighted level, "
     "AF bitmap get/set, rdsparser_ct_init and getters), proved equal to the model's functions for all arguments in the C ranges; integer conversions wrap, signed overflow assumed absent",
+    "tools/cmid.py + clang front end: coq/GenMid.v is the translation of 14 middle-layer functions (the seven RDSPARSER_BUFFER_UPDATE instances, "
+    "rdsparser_buffer_add_af, rdsparser_string_convert / _update_single (both build configurations), rdsparser_string_update, "
+    "rdsparser_parser_update_string) from struct members read to members written; memory model: members of one struct never alias, a string "
+    "object is (size, content[], errors[]) and its accessors' pointer arithmetic is not translated; bridged to the model in Properties_Mid_Cxx.v "
+    "(an obligation whenever the functions are inside the translated C subset)",
     "hand-written Gallina model coq/Model.v for everything else, tied to the code by executing model (extracted) and implementation on the same scripts",
     "extraction: ExtrOcamlBasic only (bool/option/list/prod/unit/sumbool to OCaml natives), no Extract Constant; OCaml 4.13.1; "
     "extracted: step_u step_n init_state snap_of parse_string_result observer_u observer_n dontcare_equiv decode hex_ok cfg_of step_reent_u step_reent_n rtab_of",
@@ -138,11 +143,13 @@ def ensure_gen():
     """regenerate coq/Gen.v (in the build copy) from the current sources"""
     gd = os.path.join(BUILD, "gen")
     os.makedirs(gd, exist_ok=True)
-    key = file_hash(repo_sources() + [os.path.join(VERIF, "harness", "gen_dump.c"), os.path.join(VERIF, "tools", "cleaf.py")]) + " bounds-strict"
+    key = file_hash(repo_sources() + [os.path.join(VERIF, "harness", "gen_dump.c"), os.path.join(VERIF, "tools", "cleaf.py"),
+                                     os.path.join(VERIF, "tools", "cmid.py")]) + " bounds-strict"
     stamp = os.path.join(gd, "stamp")
     genv = os.path.join(COQB, "Gen.v")
     if os.path.exists(stamp) and open(stamp).read() == key and os.path.exists(genv) \
-            and os.path.exists(os.path.join(COQB, "GenLeaf.v")):
+            and os.path.exists(os.path.join(COQB, "GenLeaf.v")) and os.path.exists(os.path.join(COQB, "GenMid.v")) \
+            and os.path.exists(os.path.join(gd, "GenMid.json")):
         return
     try:
         os.remove(stamp)      # a failure below must not leave a stale Gen.v marked valid
@@ -212,6 +219,23 @@ def ensure_gen():
     if not os.path.exists(tmp):
         raise BuildError("cleaf", (o + e)[-3000:])
     write_if_changed(os.path.join(COQB, "GenLeaf.v"), open(tmp).read())
+    # the middle layer (candidate buffer, text cell update, threshold gate), tools/cmid.py
+    tmp = os.path.join(gd, "GenMid.v")
+    for old in (tmp, os.path.join(gd, "GenMid.json")):
+        try:
+            os.remove(old)
+        except OSError:
+            pass
+    rc, o, e = sh([sys.executable, os.path.join(VERIF, "tools", "cmid.py"), REPO, tmp], timeout=300)
+    with open(os.path.join(gd, "mid_errors.txt"), "w") as f:
+        f.write(o + e)
+    if not os.path.exists(tmp) or not os.path.exists(os.path.join(gd, "GenMid.json")):
+        # the translator itself failed: no middle-layer bridge in this run (noted by the checks that have one)
+        with open(tmp, "w") as f:
+            f.write("(* GenMid.v: tools/cmid.py failed on the current sources *)\nRequire Import Base GenLeaf.\n")
+        with open(os.path.join(gd, "GenMid.json"), "w") as f:
+            json.dump({"translated": [], "unsupported": {"*": "tools/cmid.py failed: " + (o + e)[-500:]}}, f)
+    write_if_changed(os.path.join(COQB, "GenMid.v"), open(tmp).read())
     with open(stamp, "w") as f:
         f.write(key)
 
@@ -224,12 +248,12 @@ def sync_coq():
     src = os.path.join(VERIF, "coq")
     names = set()
     for fn in os.listdir(src):
-        if fn.endswith(".v") and fn not in ("Gen.v", "GenLeaf.v") or fn == "_CoqProject":
+        if fn.endswith(".v") and fn not in ("Gen.v", "GenLeaf.v", "GenMid.v") or fn == "_CoqProject":
             names.add(fn)
             text = open(os.path.join(src, fn)).read()
             write_if_changed(os.path.join(COQB, fn), text)
     for fn in os.listdir(COQB):
-        if fn.endswith(".v") and fn not in ("Gen.v", "GenLeaf.v") and fn not in names:
+        if fn.endswith(".v") and fn not in ("Gen.v", "GenLeaf.v", "GenMid.v") and fn not in names:
             os.remove(os.path.join(COQB, fn))
     if not os.path.exists(os.path.join(COQB, "Makefile.coq")) or \
             os.path.getmtime(os.path.join(COQB, "Makefile.coq")) < os.path.getmtime(os.path.join(COQB, "_CoqProject")):
@@ -575,6 +599,43 @@ def extra_modules(prop):
     return out
 
 
+# middle-layer bridges (tools/cmid.py -> GenMid.v): property -> (translated functions the bridge is about, module)
+MID = {
+    "C02": (["m_string_convert", "m_update_single"], "Properties_Mid_C02"),
+    "C06": (["m_string_convert", "m_update_single", "m_string_update", "m_parser_update_string"], "Properties_Mid_C06"),
+    "C07": (["m_string_convert", "m_update_single", "m_string_convert_n", "m_update_single_n"], "Properties_Mid_C07"),
+    "C09": (["m_buffer_update_pi", "m_buffer_update_pty", "m_buffer_update_tp", "m_buffer_update_ta",
+             "m_buffer_update_ms", "m_buffer_update_ecc", "m_buffer_update_country"], "Properties_Mid_C09"),
+    "C10": (["m_buffer_add_af"], "Properties_Mid_C10"),
+    "C20": (["m_string_convert", "m_string_convert_n", "m_update_single_n"], "Properties_Mid_C20"),
+}
+
+
+def mid_module(prop):
+    """(module, None) when tools/cmid.py translated every function the bridge of this property is
+    about; (None, reason) when the current shape of one of them is outside the translated subset of C
+    (then the bridge says nothing in this run: noted, the other obligations and the correspondence
+    check stand on their own); (None, None) for properties without such a bridge"""
+    if prop not in MID:
+        return None, None
+    deps, mod = MID[prop]
+    try:
+        st = json.load(open(os.path.join(BUILD, "gen", "GenMid.json")))
+    except (OSError, ValueError):
+        return None, "no translation status"
+    missing = [d for d in deps if d not in st.get("translated", [])]
+    if missing:
+        why = "; ".join("%s: %s" % (d, st.get("unsupported", {}).get(d, st.get("unsupported", {}).get("*", "not translated"))) for d in missing)
+        return None, why
+    return mod, None
+
+
+def module_theorems(mod):
+    q = os.path.join(VERIF, "coq", mod + ".v")
+    t2 = re.sub(r"\(\*.*?\*\)", "", open(q).read(), flags=re.S)
+    return re.findall(r"^\s*(?:Theorem|Lemma|Corollary|Example)\s+(\w+)", t2, flags=re.M)
+
+
 def theorem_info(prop):
     """obligations = theorems/lemmas/examples stated in Properties_<prop>.v"""
     p = os.path.join(VERIF, "coq", "Properties_%s.v" % prop)
@@ -606,6 +667,7 @@ def check_property(prop, tier, seed):
     discharged = 0
     coq_log = ""
     build_failed = None
+    mid_used = []
     spec = propstreams.SPECS[prop]
 
     with Lock("build"):
@@ -622,6 +684,24 @@ def check_property(prop, tier, seed):
             ok, coq_log = coq_make([target] + [m + ".vo" for m in extra_modules(prop)])
             if ok:
                 discharged = len(obligations)
+                mid_mod, mid_why = mid_module(prop)
+                if mid_mod:
+                    # the code-level bridge of the middle layer: an obligation whenever the functions it is
+                    # about are inside the translated subset of C
+                    mid_names = module_theorems(mid_mod)
+                    obligations = obligations + mid_names
+                    ok3, lg3 = coq_make([mid_mod + ".vo"])
+                    coq_log += lg3
+                    if ok3:
+                        discharged += len(mid_names)
+                        mid_used.append(mid_mod)
+                        notes.append("middle-layer bridge %s (translated C functions %s = the model's): proved" % (mid_mod, ", ".join(MID[prop][0])))
+                    else:
+                        notes.append("coq build of %s failed" % mid_mod)
+                elif mid_why:
+                    notes.append("middle-layer bridge %s not available in this run: the current shape of the sources is outside the "
+                                 "C subset tools/cmid.py translates (%s); the model-level obligations and the correspondence check "
+                                 "do not depend on it" % (MID[prop][1], mid_why))
                 if prop == "C12":
                     # optional strengthening (all values of the C parameter types); its proof follows the
                     # shape of src/ct.c, so a restructuring can defeat it: recorded, never a violation
@@ -646,7 +726,7 @@ def check_property(prop, tier, seed):
         try:
             with Lock("build"):
                 af = os.path.join(COQB, "Assum_%s.v" % prop)
-                mods = ["Properties_%s" % prop] + extra_modules(prop)
+                mods = ["Properties_%s" % prop] + extra_modules(prop) + mid_used
                 with open(af, "w") as f:
                     f.write("Require Import %s.\n" % " ".join("RDS." + m for m in mods))
                     for t in obligations:
@@ -672,7 +752,8 @@ def check_property(prop, tier, seed):
     elif discharged < len(obligations) or not obligations:
         errs = re.findall(r'File "\./([^"]+)", line (\d+).*?\n(Error:.*?)(?:\n\n|\nmake)', coq_log, flags=re.S)
         detail = "; ".join("%s:%s %s" % (f, ln, " ".join(m.split())[:400]) for f, ln, m in errs) or coq_log[-1500:]
-        violations.append({"kind": "obligation", "detail": "proof obligations of Properties_%s.v no longer check: %s" % (prop, detail),
+        violations.append({"kind": "obligation", "detail": "proof obligations of Properties_%s.v%s no longer check: %s" % (
+            prop, (" / %s.v" % MID[prop][1]) if prop in MID else "", detail),
                            "found_input": False})
 
     results = []
